@@ -95,11 +95,11 @@ theorem readDbcs_zero (w : Bool) (data : Bytes) (cont : List Bytes) :
 /-- the last segment owed is read exactly, whatever follows in the fragment -/
 theorem readDbcs_last (w : Bool) (us : List Nat) (tail : Bytes) (cont : List Bytes)
     (hlt : ∀ u ∈ us, u < 65536) (hp : packOk (us, w)) :
-    readDbcs us.length w (encUnits w us ++ tail) cont = .ok (decodeUtf16 us, ⟨tail, cont⟩) := by
+    readDbcs us.length w (encUnits w us ++ tail) cont = .ok (us, ⟨tail, cont⟩) := by
   by_cases h0 : us.length = 0
   · have : us = [] := List.eq_nil_of_length_eq_zero h0
     subst this
-    cases w <;> simp [readDbcs_zero, encUnits, decodeUtf16]
+    cases w <;> simp [readDbcs_zero, encUnits]
   · have hd := decodeTo_segment w us tail us.length hlt hp (Nat.le_refl _) (Or.inr rfl)
     unfold readDbcs
     simp only [h0, if_false, hd, Nat.sub_self, if_true, List.drop_left']
@@ -109,7 +109,7 @@ theorem readDbcs_last (w : Bool) (us : List Nat) (tail : Bytes) (cont : List Byt
 theorem readDbcs_step (w w' : Bool) (us : List Nat) (n : Nat) (d : Bytes) (fs : List Bytes)
     (hlt : ∀ u ∈ us, u < 65536) (hp : packOk (us, w)) (hn : us.length < n)
     (t : List Nat) (r : Rd) (hrec : readDbcs (n - us.length) w' d fs = .ok (t, r)) :
-    readDbcs n w (encUnits w us) ((flagByte w' :: d) :: fs) = .ok (decodeUtf16 us ++ t, r) := by
+    readDbcs n w (encUnits w us) ((flagByte w' :: d) :: fs) = .ok (us ++ t, r) := by
   have hd := decodeTo_segment w us [] n hlt hp (Nat.le_of_lt hn) (Or.inl rfl)
   rw [List.append_nil] at hd
   rw [readDbcs]
@@ -284,34 +284,56 @@ theorem decodeUtf16_segments (segs : List (List Nat)) : ∀ (s0 : List Nat),
 
 /-! ### the characters of one string across CONTINUE records -/
 
+/-- the last continuation segment (if any) is not empty -/
+def lastOk (segs : List (List Nat × Bool)) : Prop := ∀ p, segs.getLast? = some p → p.1 ≠ []
+
+theorem lastOk_tail (p : List Nat × Bool) (ss : List (List Nat × Bool)) (h : lastOk (p :: ss)) : lastOk ss := by
+  intro q hq
+  cases ss with
+  | nil => simp at hq
+  | cons a as => exact h q (by rw [List.getLast?_cons_cons]; exact hq)
+
+theorem lastOk_sum_pos : ∀ (segs : List (List Nat × Bool)), segs ≠ [] → lastOk segs →
+    0 < (segs.map (·.1.length)).sum
+  | [], h, _ => absurd rfl h
+  | [p], _, hl => by
+    have := hl p (by simp)
+    have := List.length_pos_iff.mpr this
+    simp; omega
+  | p :: q :: ss, _, hl => by
+    have := lastOk_sum_pos (q :: ss) (by simp) (lastOk_tail p (q :: ss) hl)
+    simp only [List.map_cons, List.sum_cons] at this ⊢
+    omega
+
 /-- Invariant of the split read: `data` = unread rest of the current fragment, `cont` = the fragments still
     queued, `n` = characters still owed. Reading the first segment `s0` (packing `w0`) and then one CONTINUE
-    record per further segment returns the segments' text in order and stops right after the last character. -/
+    record per further segment — any of which but the last may hold the flag byte alone — gathers the units of
+    all segments in order and stops right after the last character. -/
 theorem readDbcs_segs (segs : List (List Nat × Bool)) : ∀ (s0 : List Nat) (w0 : Bool) (n : Nat) (rest : List Tok),
     n = s0.length + (segs.map (·.1.length)).sum →
     (∀ u ∈ s0, u < 65536) → packOk (s0, w0) →
-    (∀ p ∈ segs, (∀ u ∈ p.1, u < 65536) ∧ packOk p ∧ p.1 ≠ []) →
+    (∀ p ∈ segs, (∀ u ∈ p.1, u < 65536) ∧ packOk p) → lastOk segs →
     readDbcs n w0 (lay (.b (encUnits w0 s0) :: (contToks segs ++ rest))).1
         (lay (.b (encUnits w0 s0) :: (contToks segs ++ rest))).2
-      = .ok (decodeUtf16 s0 ++ (segs.map (decodeUtf16 ·.1)).flatten, ⟨(lay rest).1, (lay rest).2⟩) := by
+      = .ok (s0 ++ (segs.map (·.1)).flatten, ⟨(lay rest).1, (lay rest).2⟩) := by
   induction segs with
   | nil =>
-    intro s0 w0 n rest hn hlt hp _
+    intro s0 w0 n rest hn hlt hp _ _
     simp only [List.map_nil, List.sum_nil, Nat.add_zero] at hn
     subst hn
     simp only [contToks, List.nil_append, lay_b, List.map_nil, List.flatten_nil, List.append_nil]
     exact readDbcs_last w0 s0 _ _ hlt hp
   | cons p ss ih =>
-    intro s0 w0 n rest hn hlt hp hall
+    intro s0 w0 n rest hn hlt hp hall hlast
+    have hpos := lastOk_sum_pos (p :: ss) (by simp) hlast
     obtain ⟨s1, w1⟩ := p
-    obtain ⟨hlt1, hp1, hne1⟩ := hall (s1, w1) (by simp)
-    have hpos : 0 < s1.length := List.length_pos_iff.mpr hne1
-    simp only [List.map_cons, List.sum_cons] at hn
+    obtain ⟨hlt1, hp1⟩ := hall (s1, w1) (by simp)
+    simp only [List.map_cons, List.sum_cons] at hn hpos
     have hrec := ih s1 w1 (n - s0.length) rest (by omega) hlt1 hp1 (fun q hq => hall q (by simp [hq]))
+      (lastOk_tail (s1, w1) ss hlast)
     simp only [lay_b] at hrec
     simp only [contToks, List.cons_append, lay_b, lay_cut, List.append_nil, List.map_cons, List.flatten_cons]
     rw [readDbcs_step w0 w1 s0 n _ _ hlt hp (by omega) _ _ hrec]
-
 
 /-! ### one table entry -/
 
@@ -357,10 +379,10 @@ def extBytes (e : Entry) : Nat := optLen e.ext
 theorem readRichAt_header (e : Entry) (w0 : Bool) (X : Bytes) (cont : List Bytes)
     (hc : e.units.length < 65536) (hr : runsLenOk e.runs) (hx : extLenOk e.ext) :
     readRichAt ⟨header e w0 ++ X, cont⟩ = (do
-      let (s, r) ← readDbcs e.units.length w0 X cont
+      let (us, r) ← readDbcs e.units.length w0 X cont
       let r ← skip (runBytes e) r.data r.cont
       let r ← skip (extBytes e) r.data r.cont
-      pure (s, r)) := by
+      pure (decodeUtf16 us, r)) := by
   unfold readRichAt
   simp only [header_len3, if_false, header_drop3, header_flags, flags_wide, flags_rich, flags_ext]
   have hcch : u16 (header e w0 ++ X) = e.units.length := by rw [header_eq]; exact u16_le16 _ hc _
@@ -418,10 +440,10 @@ theorem segments_tail_length (e : Entry) (ly : EntryLayout) :
     (segments e ly).tail.length = (ly.cuts.map (·.2)).length := by
   simp [segments, splitSizes_length]
 
-/-- the characters of an entry, read back across its CONTINUE breaks -/
+/-- the characters of an entry, gathered across its CONTINUE breaks -/
 theorem readDbcs_chars (e : Entry) (ly : EntryLayout) (hok : EntryOk e ly) (rest : List Tok) :
     readDbcs e.units.length ly.wide0 (lay (charToks e ly ++ rest)).1 (lay (charToks e ly ++ rest)).2
-      = .ok (decodeUtf16 e.units, ⟨(lay rest).1, (lay rest).2⟩) := by
+      = .ok (e.units, ⟨(lay rest).1, (lay rest).2⟩) := by
   have hz := zip_map_fst (segments e ly).tail (ly.cuts.map (·.2)) (segments_tail_length e ly)
   have hcons := cons_headD_tail (segments e ly) (splitSizes_ne_nil _ _)
   have hflat : (segments e ly).headD [] ++ (segments e ly).tail.flatten = e.units := by
@@ -441,6 +463,10 @@ theorem readDbcs_chars (e : Entry) (ly : EntryLayout) (hok : EntryOk e ly) (rest
     congr 2
     rw [show (fun (x : List Nat × Bool) => x.1.length) = List.length ∘ (·.1) from rfl, ← List.map_map, hz]
     rfl
+  have hlast : lastOk ((segments e ly).tail.zip (ly.cuts.map (·.2))) := by
+    intro p hp
+    apply hok.segsLast p.1
+    rw [← hz, List.getLast?_map, hp]; rfl
   have h := readDbcs_segs ((segments e ly).tail.zip (ly.cuts.map (·.2))) ((segments e ly).headD []) ly.wide0
     e.units.length rest hn
     (fun u hu => by
@@ -450,13 +476,11 @@ theorem readDbcs_chars (e : Entry) (ly : EntryLayout) (hok : EntryOk e ly) (rest
     (fun p hp => by
       have hp1 : p.1 ∈ (segments e ly).tail := by
         rw [← hz]; exact List.mem_map_of_mem (f := (·.1)) hp
-      refine ⟨fun u hu => hmem p.1 ?_ u hu, hok.packs p hp, hok.segsNonempty p.1 hp1⟩
+      refine ⟨fun u hu => hmem p.1 ?_ u hu, hok.packs p hp⟩
       rw [← hcons]; exact List.mem_cons_of_mem _ hp1)
+    hlast
   unfold charToks
-  rw [List.cons_append, h]
-  congr 2
-  rw [show (fun (x : List Nat × Bool) => decodeUtf16 x.1) = decodeUtf16 ∘ (·.1) from rfl, ← List.map_map, hz]
-  rw [decodeUtf16_segments _ _ (by rw [hcons]; exact hok.pairs) hok.segsNonempty, hflat]
+  rw [List.cons_append, h, hz, hflat]
 
 /-- **one entry, any legal layout**: the reader returns the entry's text and stops exactly after the entry
     (rich-text runs and the extended block skipped, nothing of what follows consumed) -/
